@@ -780,6 +780,40 @@ fn report_problems(ctx: &Ctx, c: &FaultCase, r: &RunLog) {
 // ---------------------------------------------------------------------- //
 // workloads
 
+/// Read-only workloads for a caller that does not retry: after a failed read the handle is moved back to
+/// exactly where an earlier successful read stopped (the end of a buffer window) and read again.
+pub fn readonly_workloads_no_retry() -> Vec<(String, usize, Vec<WStep>)> {
+    let mut v = Vec::new();
+    for (name, path, len) in [("mini3000", "/mini", 3000u64), ("big10000", "/big", 10000u64)] {
+        for win in [1024u64, 1500] {
+            let mut s = vec![WStep::Open { strict: false }, WStep::OpenStream(0, path.into())];
+            let mut edge = win; // where the first window ends
+            s.push(WStep::Read(0, 1));
+            for away in [edge + 276, len - 300, 10, edge + 2000] {
+                if away >= len {
+                    continue;
+                }
+                s.push(WStep::SeekStart(0, away));
+                s.push(WStep::Read(0, 1));
+                s.push(WStep::SeekStart(0, edge));
+                s.push(WStep::Read(0, 700));
+                edge = (edge + win).min(len);
+                if edge >= len {
+                    break;
+                }
+            }
+            s.push(WStep::SeekStart(0, 0));
+            s.push(WStep::Read(0, 700));
+            // a second handle on the other stream in between
+            s.push(WStep::OpenStream(1, if path == "/mini" { "/big".into() } else { "/mini".into() }));
+            s.push(WStep::Read(1, 600));
+            s.push(WStep::Read(0, 700));
+            v.push((format!("{} buf{}: read, seek away and fail, return to the window's end", name, win), win as usize, s));
+        }
+    }
+    v
+}
+
 pub fn readonly_workloads() -> Vec<(String, usize, Vec<WStep>)> {
     let mut v = Vec::new();
     for strict in [false, true] {
@@ -1469,6 +1503,12 @@ pub struct ResizeFaultCase {
     pub second: u64,
     /// index of the failing underlying call, counted from the start of the first set_len
     pub fail_at: Option<u64>,
+    /// the first operation is not set_len(first) but an append of `first` bytes (write at the end + flush)
+    #[serde(default)]
+    pub first_is_append: bool,
+    /// the file is reopened from its bytes between the failed operation and the growth
+    #[serde(default)]
+    pub reopen: bool,
 }
 
 /// Runs one case; returns (underlying calls made by the first set_len, problem).
@@ -1497,14 +1537,47 @@ pub fn run_resize_fault_case(c: &ResizeFaultCase) -> (u64, Option<(String, Strin
             plan.insert(k, Fault::Fail);
         }
         ctl.arm(plan, false);
-        let r1 = h.set_len(c.first);
+        let r1 = if c.first_is_append {
+            h.seek(SeekFrom::End(0)).and_then(|_| h.write_all(&ops::pattern(99, c.first as usize))).and_then(|_| h.flush())
+        } else {
+            h.set_len(c.first)
+        };
         calls = ctl.count();
         ctl.disarm();
-        drop(h);
+        if c.reopen {
+            // the session ends here (as a process that exits without running destructors would): the
+            // handle's Drop must not get a second, fault-free attempt at the write-back
+            std::mem::forget(h);
+        } else {
+            drop(h);
+        }
         if c.fail_at.is_some() && r1.is_ok() {
             return Ok(None); // the fault index lies beyond this run's calls
         }
-        // the caller does not retry: it looks at the stream again and grows it
+        // the caller does not retry: it looks at the stream again (possibly in a new session) and grows it
+        if c.reopen {
+            let image = mem.snapshot();
+            std::mem::forget(comp);
+            return match ops::Live::open(image, false) {
+                Ok(mut l) => {
+                    let m = l.mem.clone();
+                    resize_tail(c, &mut l.comp, &m)
+                }
+                Err(_) => Ok(None),
+            };
+        }
+        return resize_tail(c, &mut comp, &mem);
+    });
+    match res {
+        Ok(Ok(None)) => (calls, None),
+        Ok(Ok(Some(m))) => (calls, Some(("array".into(), m))),
+        Ok(Err(e)) => (calls, Some(("machinery".into(), e))),
+        Err(p) => (calls, Some(("panic".into(), format!("resize under a fault panicked: {}", p)))),
+    }
+}
+
+fn resize_tail<F: Read + Write + Seek>(c: &ResizeFaultCase, comp: &mut CompoundFile<F>, mem: &MemFile) -> Result<Option<String>, String> {
+    {
         let mut f = match comp.open_stream("/a") {
             Ok(f) => ops::NoDropOnPanic::new(f),
             Err(_) => return Ok(None),
@@ -1519,7 +1592,7 @@ pub fn run_resize_fault_case(c: &ResizeFaultCase) -> (u64, Option<(String, Strin
             if got.len() as u64 != c.second {
                 return None; // length disagreement after a failed call is not this oracle's business
             }
-            got[zero_from..].iter().position(|&b| b != 0).map(|i| format!("{}: after a set_len({}) that failed and a set_len({}) from a visible length of {}, byte {} reads {:#04x} instead of zero", how, c.first, c.second, visible, zero_from + i, got[zero_from + i]))
+            got[zero_from..].iter().position(|&b| b != 0).map(|i| format!("{}: after {} that failed{} and a set_len({}) from a visible length of {}, byte {} reads {:#04x} instead of zero", how, if c.first_is_append { format!("an append of {} bytes", c.first) } else { format!("a set_len({})", c.first) }, if c.reopen { " and a reopen" } else { "" }, c.second, visible, zero_from + i, got[zero_from + i]))
         };
         let mut got = Vec::new();
         match comp.open_stream("/a") {
@@ -1543,12 +1616,6 @@ pub fn run_resize_fault_case(c: &ResizeFaultCase) -> (u64, Option<(String, Strin
             }
         }
         Ok(None)
-    });
-    match res {
-        Ok(Ok(None)) => (calls, None),
-        Ok(Ok(Some(m))) => (calls, Some(("array".into(), m))),
-        Ok(Err(e)) => (calls, Some(("machinery".into(), e))),
-        Err(p) => (calls, Some(("panic".into(), format!("resize under a fault panicked: {}", p)))),
     }
 }
 
@@ -1566,7 +1633,18 @@ pub fn explore_resize_faults(ctx: &Ctx, version: u16, thorough: bool) -> (u64, u
                 continue;
             }
             for &b in &seconds {
-                cases.push(ResizeFaultCase { version, initial: i, first: a, second: b, fail_at: None });
+                cases.push(ResizeFaultCase { version, initial: i, first: a, second: b, fail_at: None, first_is_append: false, reopen: false });
+            }
+        }
+        // an append that fails part-way (data written, directory entry not), then - in the same session
+        // or after reopening the bytes - a growth
+        for &a in &[600u64, 3000] {
+            for &b in &seconds {
+                if b as usize > i {
+                    for reopen in [false, true] {
+                        cases.push(ResizeFaultCase { version, initial: i, first: a, second: b, fail_at: None, first_is_append: true, reopen });
+                    }
+                }
             }
         }
     }
